@@ -126,4 +126,120 @@ theorem Same.grow {s s' : EState} (h : Same s s') : Grow s s' := by
 theorem noteMsg_same (s : EState) (m : Msg) : Same s (noteMsg s m) := by
   refine ⟨?_, ?_, ?_, ?_⟩ <;> (unfold noteMsg; frame_be)
 
+/-! ### the command handlers: none of them touches the stacks, except `_start_suspender`, which pushes
+the helper plan together with a response slot -/
+
+/-- close `Same s (f s ..)` goals after unfolding `f` -/
+macro "frame_same" : tactic =>
+  `(tactic| (refine ⟨?_, ?_, ?_, ?_⟩ <;> frame_be))
+
+theorem same_of_eqs {s s' : EState} (a : s'.pc = s.pc) (b : s'.resp = s.resp) (c : s'.planStack = s.planStack)
+    (d : s'.respStack = s.respStack) : Same s s' := ⟨a, b, c, d⟩
+
+theorem Same.refl (s : EState) : Same s s := ⟨rfl, rfl, rfl, rfl⟩
+
+theorem Same.trans {a b c : EState} (h1 : Same a b) (h2 : Same b c) : Same a c :=
+  ⟨h2.1.trans h1.1, h2.2.1.trans h1.2.1, h2.2.2.1.trans h1.2.2.1, h2.2.2.2.trans h1.2.2.2⟩
+
+theorem same_foldl {α} (f : EState → α → EState) (h : ∀ s a, Same s (f s a)) (l : List α) (s : EState) :
+    Same s (l.foldl f s) := by
+  induction l generalizing s with
+  | nil => exact Same.refl s
+  | cons a l ih => rw [List.foldl_cons]; exact (h s a).trans (ih _)
+
+theorem forBundlers_go_same (f : EState → Bundler → EState × Bundler) (h : ∀ s b, Same s (f s b).1)
+    (todo done : List (String × Bundler)) (s : EState) : Same s (forBundlers.go f s todo done) := by
+  induction todo generalizing s done with
+  | nil => exact ⟨rfl, rfl, rfl, rfl⟩
+  | cons kb rest ih =>
+    obtain ⟨k, b⟩ := kb
+    unfold forBundlers.go
+    simp only []
+    exact (h s b).trans (ih _ _)
+
+theorem forBundlers_same (f : EState → Bundler → EState × Bundler) (h : ∀ s b, Same s (f s b).1) (s : EState) :
+    Same s (forBundlers s f) := forBundlers_go_same f h _ _ s
+
+theorem logCall_same (s : EState) (c : Call) : Same s (s.logCall c) := ⟨rfl, rfl, rfl, rfl⟩
+theorem emit_same (s : EState) (d : Doc) : Same s (s.emit d) := ⟨rfl, rfl, rfl, rfl⟩
+theorem setDev_same (s : EState) (n : String) (d : DevState) : Same s (setDev s n d) := ⟨rfl, rfl, rfl, rfl⟩
+theorem nextMode_same (s : EState) (n op : String) : Same s (nextMode s n op).2 := ⟨rfl, rfl, rfl, rfl⟩
+theorem putBundler_same (s : EState) (m : Msg) (b : Bundler) : Same s (putBundler s m b) := ⟨rfl, rfl, rfl, rfl⟩
+theorem emitEvent_same (s : EState) (b : Bundler) (st : String) (d : List (String × Int)) (n : String) :
+    Same s (emitEvent s b st d n).1 := ⟨rfl, rfl, rfl, rfl⟩
+theorem prepareStream_same (s : EState) (b : Bundler) (st : String) (o : List String) :
+    Same s (prepareStream s b st o).1 := ⟨rfl, rfl, rfl, rfl⟩
+theorem newStatus_same (s : EState) (d o m : String) (g : Option String) : Same s (newStatus s d o m g).2 :=
+  ⟨rfl, rfl, rfl, rfl⟩
+
+theorem recordInterruption_same (s : EState) (b : Bundler) (c : String) : Same s (recordInterruption s b c).1 := by
+  unfold recordInterruption; split <;> exact ⟨rfl, rfl, rfl, rfl⟩
+
+theorem suspendMonitors_same (s : EState) (b : Bundler) : Same s (suspendMonitors s b).1 := by
+  unfold suspendMonitors; apply same_foldl; intro s x; exact ⟨rfl, rfl, rfl, rfl⟩
+
+theorem restoreMonitors_same (s : EState) (b : Bundler) : Same s (restoreMonitors s b).1 := by
+  unfold restoreMonitors; apply same_foldl; intro s x; exact ⟨rfl, rfl, rfl, rfl⟩
+
+theorem clearMonitors_same (s : EState) (b : Bundler) : Same s (clearMonitors s b).1 := by
+  unfold clearMonitors; exact suspendMonitors_same s b
+
+theorem closeRunDoc_same (s : EState) (b : Bundler) (e r : String) : Same s (closeRunDoc s b e r).1 := by
+  unfold closeRunDoc
+  exact (clearMonitors_same s b).trans ⟨rfl, rfl, rfl, rfl⟩
+
+theorem resetCheckpointMeth_same (s : EState) : Same s (resetCheckpointMeth s) := by
+  unfold resetCheckpointMeth; split
+  · exact Same.refl s
+  · exact Same.trans ⟨rfl, rfl, rfl, rfl⟩ (forBundlers_same _ (fun s _ => Same.refl s) _)
+
+theorem stopMovables_same (s : EState) : Same s (stopMovables s) := by
+  unfold stopMovables; apply same_foldl; intro s x; exact ⟨rfl, rfl, rfl, rfl⟩
+
+theorem pauseHooks_same (s : EState) : Same s (pauseHooks s) := by
+  unfold pauseHooks
+  apply same_foldl
+  intro s n
+  split
+  · split
+    · simp only []
+      split
+      · exact Same.trans ⟨rfl, rfl, rfl, rfl⟩ (resetCheckpointMeth_same _)
+      · exact ⟨rfl, rfl, rfl, rfl⟩
+    · exact Same.refl s
+  · exact Same.refl s
+
+theorem resumeHooks_same (s : EState) : Same s (resumeHooks s) := by
+  unfold resumeHooks
+  apply same_foldl
+  intro s n
+  split
+  · split
+    · exact ⟨rfl, rfl, rfl, rfl⟩
+    · exact Same.refl s
+  · exact Same.refl s
+
+theorem rewindPlan_same (s : EState) : Same s (rewindPlan s).2 := by
+  unfold rewindPlan
+  simp only []
+  split
+  · exact ⟨rfl, rfl, rfl, rfl⟩
+  · exact Same.trans ⟨rfl, rfl, rfl, rfl⟩ (forBundlers_same _ (fun s _ => Same.refl s) _)
+
+theorem requestPause_same {s s' : EState} {d : Bool} (h : requestPause s d = .ok s') : Same s s' := by
+  unfold requestPause at h
+  split at h
+  · cases h
+  · split at h
+    · cases h; exact ⟨rfl, rfl, rfl, rfl⟩
+    · split at h
+      · cases h
+      · rename_i s1 hs
+        cases h
+        have h1 : Same s s1 := by
+          unfold setState at hs; split at hs
+          · cases hs; exact ⟨rfl, rfl, rfl, rfl⟩
+          · cases hs
+        exact h1.trans (Same.trans (forBundlers_same _ (fun s b => recordInterruption_same s b "pause") _) ⟨rfl, rfl, rfl, rfl⟩)
+
 end BlueskyVerif.Engine
